@@ -11,7 +11,6 @@ sys.path.insert(0, os.path.join(os.path.dirname(os.path.abspath(__file__)), ".."
 import vlib, metalib
 
 KNOWN_TEXT = {
-    "snapshot-dup": "Snapshot with the name of a chain member is refused but its deferred clean-up deletes that member's files",
     "revert-target": "Revert to a name that is not a non-head chain member (the head itself / an off-chain file) destroys the directory",
 }
 
@@ -25,8 +24,6 @@ def shape_of(case, outs, failstep):
     o = ops[failstep]
     prev = outs["obs"][failstep - 1]
     chain = prev.get("chain") or []
-    if o["op"] == "snap" and metalib.dname_str(("s", o["s"])) in chain[1:]:
-        return "snapshot-dup"
     if o["op"] == "revert":
         name = metalib.dname_str(tuple(o["d"]))
         if name not in chain[1:] and name in prev["dir"]:
@@ -39,7 +36,7 @@ def gen_cases(ctx, n_random):
     cases = metalib.fixed_cases() + metalib.known_cases()
     for i in range(n_random):
         kb = 0.08 if i % 10 == 0 else 0.0
-        cases.append(dict(ops=metalib.Gen(rng, invalid=0.3, known_bad=kb).history(rng.randint(8, 26)),
+        cases.append(dict(ops=metalib.Gen(rng, invalid=0.3, known_bad=kb).history(rng.randint(8, 22)),
                           maxchain=rng.choice([0, 0, 0, 0, 6])))
     return cases
 
@@ -66,7 +63,7 @@ def main(ctx, replay=None):
         sys.exit(1 if bad else 0)
 
     quick = ctx.tier == "quick"
-    cases = gen_cases(ctx, 220 if quick else 6000)
+    cases = gen_cases(ctx, 170 if quick else 6000)
     bad, cov, outs = metalib.run_cases(ctx, binpath, cases)
 
     concrete, known, drift = [], [], []
@@ -77,8 +74,9 @@ def main(ctx, replay=None):
                 known.append((b, sh))
             else:
                 concrete.append(b)
-            # the model has to predict the same observations even when the oracle fails
-            if b["field"] != 0:
+            # the model has to predict the same observations up to and including the step at which the oracle fails
+            # (after a known finding destroyed the directory the rest of the history is not compared)
+            if b["field"] != 0 and b["step"] <= b["failstep"]:
                 drift.append(b)
         else:
             drift.append(b)
@@ -89,6 +87,7 @@ def main(ctx, replay=None):
         return small, bb, oo
 
     seen = set()
+    known.sort(key=lambda x: len(cases[x[0]["case"]]["ops"]))          # minimise the shortest representative of each shape
     for b, sh in known:
         if sh in seen:
             continue
